@@ -19,7 +19,7 @@ namespace Haiway.AsyncCache
 
 def upd {α : Type} (f : Nat → α) (i : Nat) (v : α) : Nat → α := fun j => if j = i then v else f j
 
-inductive Outcome where | ok | boom
+inductive Outcome where | ok | boom | cancel    -- `cancel`: the wrapped coroutine itself ended with CancelledError (everyone awaiting it is cancelled with it)
 deriving DecidableEq, Repr
 
 inductive TaskSt where
